@@ -713,6 +713,10 @@ type vc14rtProbe struct {
 	Slow int
 	// Bcrypt tells whether to run the (slow) bcrypt probes.
 	Bcrypt bool
+	// NoRLBehaviour skips the counting probes of the rate limiter: they
+	// assume a fresh counter, which an object that has already been used does
+	// not have.
+	NoRLBehaviour bool
 }
 
 func vc14rtDrawProbe(t *rapid.T, est datasize.ByteSize) *vc14rtProbe {
@@ -965,7 +969,7 @@ func vc14rtDiffRL(spec *vc14rtProfSpec, got agd.Ratelimiter, pr *vc14rtProbe) (d
 		}
 	}
 
-	if !inside.IsValid() || len(diffs) > 0 {
+	if !inside.IsValid() || len(diffs) > 0 || pr.NoRLBehaviour {
 		return diffs
 	}
 
@@ -1166,6 +1170,33 @@ func vc14rtNeedZones(t *testing.T) {
 			t.FailNow()
 		}
 	}
+}
+
+// vc14rtUse exercises freshly built objects the way the running service does
+// before the cache file is written (profiledb.Refresh publishes the records
+// before it stores them): access verdicts incl. blocked-name probes (which
+// initialise the lazy engine), rate limiter Check / CountResponses, schedule
+// Contains, Authenticate and the configuration accessors.  The probes are those
+// of the comparison, so it also returns what a fresh object does differently
+// from its specification (always nothing on a sound harness and tree).
+func vc14rtUse(t *rapid.T, w *vc14rtWorld, profs []*agd.Profile, devs []*agd.Device, pr *vc14rtProbe) (usedP map[*agd.Profile]bool, usedD map[*agd.Device]bool, diffs []string) {
+	usedP, usedD = map[*agd.Profile]bool{}, map[*agd.Device]bool{}
+	for i, spec := range w.Profs {
+		if rapid.Bool().Draw(t, "useProfileBeforeStore") {
+			usedP[profs[i]] = true
+			diffs = append(diffs, vc14rtDiffProfile(spec, profs[i], pr)...)
+		}
+	}
+
+	for i, spec := range w.Devs {
+		if rapid.Bool().Draw(t, "useDeviceBeforeStore") {
+			usedD[devs[i]] = true
+			dd, _ := vc14rtDiffDevice(spec, devs[i], pr)
+			diffs = append(diffs, dd...)
+		}
+	}
+
+	return usedP, usedD, diffs
 }
 
 // Local fakes (agdtest cannot be imported in-package: import cycle).
